@@ -174,6 +174,13 @@ def gen_cases(ctx):
     for a in subsets:
         for v in edge:
             cases.append(mk(a, v, str(v), False, False, "stdin-input", inp="stdin"))
+    # inputs that yield no file at all go through the same rules: an empty directory, a directory whose entries are all filtered
+    # out (hidden / junk names), a directory emptied by --glob (added after seeded change C14-14: the only enforcement of the
+    # 2^32-1 limit sat in code a directory without files never reached)
+    for inp in ("emptydir", "filtereddir", "globdir"):
+        for a in subsets:
+            for v in edge + [1 << 32, 1 << 40, (1 << 64) - 1]:
+                cases.append(mk(a, v, str(v), False, False, "no-files-input", inp=inp, out="file" if v % 2 else "stdout"))
     n_matrix = len(cases)
     # seeded random stream: any bit length up to 2^53 (exact in the byte-size parser), biased to the thresholds
     r = ctx.rng
@@ -220,7 +227,9 @@ SAMPLE_PICKS = [
 
 
 def argv_of(c):
-    a = ["torrent", "create", "--input", "-" if c["input"] == "stdin" else "f"]
+    a = ["torrent", "create", "--input", {"stdin": "-", "file": "f", "emptydir": "e", "filtereddir": "h", "globdir": "g"}[c["input"]]]
+    if c["input"] == "globdir":
+        a += ["--glob", "!*"]
     if c["input"] == "stdin":
         a += ["--name", "x"]
     a += ["--output", "-" if c["output"] == "stdout" else "out.torrent"]
@@ -240,11 +249,24 @@ def argv_of(c):
     return a
 
 
+def populate(d):
+    with open(os.path.join(d, "f"), "wb") as f:
+        f.write(b"hello")
+    os.makedirs(os.path.join(d, "e"), exist_ok=True)
+    os.makedirs(os.path.join(d, "h", ".git"), exist_ok=True)
+    for n in (".hidden", "Thumbs.db", "Desktop.ini", os.path.join(".git", "config")):
+        with open(os.path.join(d, "h", n), "wb") as f:
+            f.write(b"x")
+    os.makedirs(os.path.join(d, "g", "sub"), exist_ok=True)
+    for n in ("a.txt", os.path.join("sub", "b.bin")):
+        with open(os.path.join(d, "g", n), "wb") as f:
+            f.write(b"data")
+
+
 def observe(ctx, argv, base, shared, use_stdin, file_out):
     d = tempfile.mkdtemp(dir=base) if file_out else shared
     if file_out:
-        with open(os.path.join(d, "f"), "wb") as f:
-            f.write(b"hello")
+        populate(d)
     rc, out, err = ctx.imdl(argv, cwd=d, stdin=b"hello" if use_stdin else b"", env={"NO_COLOR": "1"})
     text = ANSI.sub("", err.decode("utf-8", "replace"))
     notes = []
@@ -259,7 +281,7 @@ def observe(ctx, argv, base, shared, use_stdin, file_out):
     if file_out:
         p = os.path.join(d, "out.torrent")
         blob = open(p, "rb").read() if os.path.exists(p) else b""
-        obs["extra_files"] = sorted(set(os.listdir(d)) - {"f", "out.torrent"})
+        obs["extra_files"] = sorted(set(os.listdir(d)) - {"f", "e", "h", "g", "out.torrent"})
         if out:
             obs["extra_files"].append("<%d bytes on stdout>" % len(out))
         shutil.rmtree(d, ignore_errors=True)
@@ -275,6 +297,38 @@ def observe(ctx, argv, base, shared, use_stdin, file_out):
     elif rc == 0:
         obs["decode_error"] = "nothing written"
     return obs
+
+
+def closed_stderr_probe(ctx, base):
+    """A rejection is an exit with status 1 also when nobody listens to the diagnostic: standard error is a pipe whose reading
+    end is closed (`2>&1 | head -0`, a log collector that went away). (Added after seeded change C14-15: SIGPIPE restored to its
+    default in run(); the process then dies from signal 13 while it writes `error: ...`.)"""
+    import subprocess
+    d = tempfile.mkdtemp(dir=base)
+    populate(d)
+    env = dict(lib.noise_env(), PATH=os.environ.get("PATH", ""), RUST_BACKTRACE="0", NO_COLOR="1")
+    jobs = [(["--private"], "private-trackerless"), (["--piece-length", "1"], "small"), (["--piece-length", "17KiB"], "uneven"),
+            (["--piece-length", "0"], "zero"), (["--piece-length", "4GiB"], "too-large"),
+            (["--piece-length", "16KiB", "--private", "--allow", "small-piece-length"], "private-other-allow"),
+            (["--piece-length", "abc"], "usage")]
+    for extra, what in jobs:
+        for inp in ("f", "g"):
+            rfd, wfd = os.pipe()
+            os.close(rfd)
+            try:
+                p = subprocess.run([ctx.bins["imdl"], "torrent", "create", "--input", inp, "--output", "-"] + extra, cwd=d, env=env,
+                                   stdin=subprocess.DEVNULL, stdout=subprocess.PIPE, stderr=wfd, timeout=60)
+            finally:
+                os.close(wfd)
+            ctx.cov["evaluations"] += 1
+            ctx.count("closed_stderr_rejections")
+            ctx.distinct(("closed-stderr", what, inp))
+            if p.returncode != 1 or p.stdout:
+                ctx.violation("oracle-failure", "rejection (%s) with standard error closed by its reader: exit status %d%s, %d bytes on standard output; "
+                              "a rejected create exits 1 and writes nothing" % (what, p.returncode, " (killed by a signal)" if p.returncode < 0 else "", len(p.stdout)),
+                              {"argv": ["imdl", "torrent", "create", "--input", inp, "--output", "-"] + extra, "rc": p.returncode,
+                               "reproduce": "imdl torrent create --input %s --output - %s 2>&1 >/dev/null | head -c0; echo ${PIPESTATUS[0]}" % (inp, " ".join(extra))})
+    shutil.rmtree(d, ignore_errors=True)
 
 
 def impl_line(obs):
@@ -296,7 +350,7 @@ def model_line(c):
 
 def shell(argv, use_stdin):
     q = " ".join("'%s'" % a if (a == "" or re.search(r"[^A-Za-z0-9_./:=,-]", a)) else a for a in argv)
-    pre = "cd $(mktemp -d) && printf hello > f && "
+    pre = "cd $(mktemp -d) && printf hello > f && mkdir -p e h g/sub && touch h/.hidden h/Thumbs.db g/a.txt g/sub/b.bin && "
     return pre + ("printf hello | " if use_stdin else "") + "NO_COLOR=1 imdl " + q + "; echo exit=$?"
 
 
@@ -320,8 +374,7 @@ def run(ctx):
     cases, n_matrix = gen_cases(ctx)
     base = tempfile.mkdtemp(prefix="c14-")
     shared = tempfile.mkdtemp(dir=base)
-    with open(os.path.join(shared, "f"), "wb") as f:
-        f.write(b"hello")
+    populate(shared)
     try:
         obs = lib.pmap(lambda c: observe(ctx, argv_of(c), base, shared, c["input"] == "stdin", c["output"] == "file"), cases)
         model = ctx.model([model_line(c) for c in cases])
@@ -367,7 +420,8 @@ def run(ctx):
             ctx.violation("model-impl-disagreement",
                           "Lint.status and the binary differ on %s (impl %s, model %s); the property's own conditions hold there"
                           % (" ".join(case["argv"]), case["impl"], case["model"]), case)
-        if os.listdir(shared) != ["f"]:
+        closed_stderr_probe(ctx, base)
+        if sorted(os.listdir(shared)) != ["e", "f", "g", "h"]:
             ctx.violation("oracle-failure", "runs with --output - left files behind: %s" % sorted(os.listdir(shared)),
                           {"files": sorted(os.listdir(shared))})
 
@@ -431,8 +485,7 @@ def replay(ctx, path):
     base = tempfile.mkdtemp(prefix="c14-replay-")
     try:
         shared = tempfile.mkdtemp(dir=base)
-        with open(os.path.join(shared, "f"), "wb") as f:
-            f.write(b"hello")
+        populate(shared)
         file_out = "out.torrent" in argv
         o = observe(ctx, argv, base, shared, case.get("input") == "stdin", file_out)
         print("argv  :", " ".join(case["argv"]))
